@@ -245,7 +245,8 @@ def r2(ctx, chk):
         else:
             why = "conversion kind %s" % (kind,)
         chk.ob(rule, "strptime: microsecond=%s is the captured fraction right-padded to 6 digits, exactly" % ast.unparse(e)[:40], ok, why,
-               key={"construct": "exact microseconds"}, file=f.file, function=f.qual, line=e.lineno, text=ast.unparse(e))
+               key={"construct": "exact microseconds"}, file=f.file, function=f.qual, line=e.lineno, text=ast.unparse(e),
+               positive=(kind == ("float",)))        # a float conversion that is present is a fact, wherever the code was moved
     tp = ix.cls("dateparser.parser:_time_parser")
     td = ast.literal_eval(tp.attrs["time_directives"])
     chk.ob(rule, "time directives include seconds with and without fraction, 24h and 12h", {"%H:%M:%S", "%H:%M:%S.%f", "%H:%M", "%I:%M %p"} <= set(td),
